@@ -365,3 +365,36 @@ def replay_end_of_chain(ctx, tr):
             ctx.disagree("sys.end-of-chain." + inf[1].split(":")[0], {"ini": meta["ini"], "seed": meta["seed"], "leg": inf[0], "request": line,
                                                                        "job": tr.get("job")}, e, g)
     return len(lines)
+
+
+def replay_scheduler(ctx, tr):
+    """The scheduler as the mediator really uses it: every push_event / get_succeeding_event / trash_event of a recorded run is
+    replayed, in order, in the Lean models of HeapScheduler (array heap with lazy deletion) and ListScheduler; the handler the model
+    returns (tie-breaking by heap layout resp. list order included) and its time must be the recorded ones, leg by leg."""
+    meta = tr["meta"]
+    kind = meta["scheduler"]
+    lines, exp, info = ["reset"], [None], [None]
+    for i, leg in enumerate(tr["legs"]):
+        for h, t in leg["times"].items():
+            lines.append(f"push {f2b(t[0])} {f2b(t[1])} {h + 1}")
+            exp.append(None); info.append(None)
+        lines.append("get")
+        exp.append(leg["chosen"] + 1); info.append(i)
+        for h in leg["trashed"]:
+            lines.append(f"trash {h + 1}")
+            exp.append(None); info.append(None)
+    rep = ctx.model("heap", lines)
+    n = 0
+    for line, e, r, inf in zip(lines, exp, rep, info):
+        if e is None:
+            continue
+        parts = r.split(" | ")
+        mine = parts[0] if kind == "HeapScheduler" else parts[1]
+        n += 1
+        ctx.count("scheduler-replay:" + kind)
+        got = mine.split()
+        if got[0] != "ok" or int(got[1]) != e:
+            ctx.disagree("sched.run-replay (" + kind + ")", {"ini": meta["ini"], "seed": meta["seed"], "leg": inf, "job": tr.get("job")},
+                         f"handler {e - 1} ({meta['handlers'][e - 1][1]})", mine)
+            break
+    return n
